@@ -1,4 +1,4 @@
-// GENERATED on every run by vlib/extract.py from /tmp/seedcheck-20768 -- do not edit
+// GENERATED on every run by vlib/extract.py from /repo -- do not edit
 #![allow(unused_imports, unused_variables, unused_mut, dead_code, unused_parens, unused_braces, non_snake_case)]
 use vstd::prelude::*;
 use core::cmp::Ordering;
@@ -513,6 +513,12 @@ pub proof fn lemma_sorted_partition(v: Seq<(QualifierKey, SmallString)>, t: Seq<
 }
 
 
+
+/// documented panic: indexing a qualifier that is absent
+#[verifier::external_body]
+pub fn x_panic_absent() -> !
+    requires false
+{ panic!() }
 
 impl<S: AsRef<str>> MixedQualifierKey<S> {
     pub open spec fn text(&self) -> Seq<char> {
@@ -1189,6 +1195,90 @@ pub fn next(&mut self) -> (r: Option<(&'a QualifierKey, &'a str)>)
 {
         let (k, v) = self.0.next()?;
         Some((k, v.as_str()))
+    }
+}
+impl Qualifiers {
+// ---- unit U-qmap.contains_typed  <= purl/src/qualifiers.rs:199 ----
+pub fn contains_typed<Q>(&self) -> (r: bool)
+where Q: KnownQualifierKey,
+        requires self.wf()
+        ensures r == (valid_key(Q::KEY@) && has_key(self.qualifiers@, lower_ascii_seq(Q::KEY@)))
+{
+        self.contains_key(Q::KEY)
+    }
+// ---- unit U-qmap.get_typed  <= purl/src/qualifiers.rs:124 ----
+pub fn get_typed<'a, Q>(&'a self) -> (r: Option<Q>)
+where Q: From<&'a str> + KnownQualifierKey,
+        requires self.wf()
+        ensures r is Some == (valid_key(Q::KEY@) && has_key(self.qualifiers@, lower_ascii_seq(Q::KEY@)))
+{
+        self.get(Q::KEY).map(Q::from)
+    }
+// ---- unit U-qmap.try_insert_typed  <= purl/src/qualifiers.rs:247 ----
+pub fn try_insert_typed<Q>( &mut self, value: Q, ) -> (r: Result<(), <SmallString as TryFrom<Q>>::Error>)
+where Q: KnownQualifierKey, SmallString: TryFrom<Q>,
+        requires old(self).wf(), valid_key(Q::KEY@)
+        ensures final(self).wf(),
+            exists|x: Result<SmallString, <SmallString as TryFrom<Q>>::Error>| #[trigger] <SmallString as TryFrom<Q>>::try_from_rel(value, x) && match x {
+                Err(e) => r == Err::<(), <SmallString as TryFrom<Q>>::Error>(e) && final(self).qualifiers@ == old(self).qualifiers@,
+                Ok(val) => r is Ok && ({
+                    let k = lower_ascii_seq(Q::KEY@);
+                    let p = pos_of(old(self).qualifiers@, k);
+                    if has_key(old(self).qualifiers@, k) {
+                        final(self).qualifiers@ == old(self).qualifiers@.update(p, (old(self).qualifiers@[p].0, val))
+                    } else {
+                        final(self).qualifiers@.len() == old(self).qualifiers@.len() + 1 && final(self).qualifiers@[p].0.0@ == k
+                        && final(self).qualifiers@ == old(self).qualifiers@.insert(p, (final(self).qualifiers@[p].0, val))
+                    }
+                }),
+            }
+{
+        proof { axiom_string_from(); }
+
+        let value = <SmallString as TryFrom<Q>>::try_from(value)?;
+        self.insert(Q::KEY, value).unwrap();
+        Ok(())
+    }
+}
+impl<'a, K: AsRef<str>> Entry<'a, K> {
+// ---- unit U-qmap.Entry.or_insert  <= purl/src/qualifiers.rs:383 ----
+pub fn or_insert<V>(self, default: V) -> (r: &'a mut SmallString)
+where SmallString: From<K> + From<V>,
+        requires match self { Entry::Occupied(o) => o.wf(), Entry::Vacant(v) => v.wf() }
+        ensures
+            self is Occupied ==> ({
+                let ix = self->Occupied_0.index as int;
+                *r == old(self->Occupied_0.qualifiers)@[ix].1
+                && final(self->Occupied_0.qualifiers)@ == old(self->Occupied_0.qualifiers)@.update(ix, (old(self->Occupied_0.qualifiers)@[ix].0, *final(r)))
+                && wf_seq(final(self->Occupied_0.qualifiers)@)
+            }),
+            self is Vacant ==> ({
+                let ix = self->Vacant_0.index as int;
+                wf_seq(final(self->Vacant_0.qualifiers)@)
+                && final(self->Vacant_0.qualifiers)@.len() == old(self->Vacant_0.qualifiers)@.len() + 1
+                && final(self->Vacant_0.qualifiers)@[ix].0.0@ == self->Vacant_0.key.canon()
+                && final(self->Vacant_0.qualifiers)@ == old(self->Vacant_0.qualifiers)@.insert(ix, (final(self->Vacant_0.qualifiers)@[ix].0, *final(r)))
+            }),
+{
+        match self {
+            Entry::Occupied(o) => o.into_mut(),
+            Entry::Vacant(v) => v.insert(default),
+        }
+    }
+}
+impl Qualifiers {
+// ---- unit U-qmap.index  <= purl/src/qualifiers.rs:614 ----
+pub fn index<K: AsRef<str>>(&self, index: K) -> (r: &SmallString)
+        requires self.wf(), valid_key(index.text()) && has_key(self.qualifiers@, lower_ascii_seq(index.text()))
+        ensures has_pair(self.qualifiers@, lower_ascii_seq(index.text()), r@)
+{
+        broadcast use axiom_view_of_str;
+
+        let index = index.as_ref();
+        let Some(value) = self.get_index(index).map(|i: usize| -> (s: &SmallString) requires i < self.qualifiers@.len() ensures *s == self.qualifiers@[i as int].1 { &self.qualifiers[i].1 }) else {
+            x_panic_absent();
+        };
+        value
     }
 }
 
